@@ -316,11 +316,12 @@ theorem rep_sym_iff (a : L) (lo : Nat) (hi : Option Nat) (w : List σ) :
     exact ⟨hlo, hhi, h2⟩
   · rintro ⟨hlo, hhi, hall⟩
     refine ⟨w.map (fun c => [c]), ?_, by simpa using hlo, by simpa using hhi, ?_⟩
-    · induction w with
+    · clear hlo hhi hall
+      induction w with
       | nil => rfl
       | cons c t ih =>
         simp only [List.map_cons, List.flatten_cons, List.cons_append, List.nil_append]
-        rw [← ih (fun x hx => hall x (by simp [hx]))]
+        rw [← ih]
     · intro x hx
       obtain ⟨c, hc, rfl⟩ := List.mem_map.mp hx
       exact ⟨c, rfl, hall c hc⟩
